@@ -233,6 +233,12 @@ func lexMessageHeader(l *lexer) stateFn {
 			l.emit(tokenTypeLeftAngleBracket)
 			return lexMessageText
 		default:
+			if unicode.IsSpace(r) {
+				// other Unicode white space (VT, FF, NEL, NBSP, ...) separates tokens as well;
+				// it must not become (part of) a message name
+				l.ignore()
+				continue
+			}
 			for {
 				r := l.next()
 				if r == eof || unicode.IsSpace(r) || strings.HasPrefix(l.input[l.pos-1:], "//") {
